@@ -715,7 +715,11 @@ def gen_cases(rng, tier):
                           durs=[None if (x := rng.choice(XVALS)) is None else str(x) for _ in range(n2)],
                           delays=[(u, v, None if (x := rng.choice(XVALS)) is None else str(x)) for u, v in opairs]))
         miss = rng.random() < 0.1 and n2 > 0
-        cases.append(dict(gb, kind='pnm', fire=[list(p) for p in opairs if rng.random() < rng.choice([0.3, 0.6, 0.9])] + ([[0, 0]] if n2 else []),
+        # the rule may also say "would transmit" for ordered pairs that are no contact of G (the reverse of a one-way arc of a
+        # directed G, non-adjacent pairs): such pairs must NOT appear in the percolated graph
+        nonarcs = [(v, u) for u, v in opairs if (v, u) not in set(map(tuple, opairs))] + [(a, b) for a in range(n2) for b in range(n2) if a != b and rng.random() < 0.15]
+        cases.append(dict(gb, kind='pnm', fire=[list(p) for p in opairs if rng.random() < rng.choice([0.3, 0.6, 0.9])] + ([[0, 0]] if n2 else [])
+                                                + [list(p) for p in dict.fromkeys(nonarcs) if list(p) not in [list(q) for q in opairs] and rng.random() < 0.7],
                           xi_missing=[rng.randrange(n2)] if miss and rng.random() < 0.5 else [],
                           zeta_missing=[rng.randrange(n2)] if miss and rng.random() < 0.7 else []))
         p = rng.choice([F(0), F(1), F(1, 2), F(1, 4), F(3, 4), F(5, 8)])
